@@ -507,7 +507,7 @@ func main() {
 			exec(fmt.Sprintf("sig %d %s %s", v, idsStr(ids), hexOf(msg)))
 		}
 	}
-	for run.NOps < a.N {
+	for run.NOps < a.N && !run.Enough() {
 		for _, si := range rng.Perm(len(shapes)) {
 			if run.NOps >= a.N {
 				break
